@@ -83,11 +83,13 @@ def unit_pattern(us, q):
 
 
 def ident_parts(text):
-    """independent reading of an identifier path: split at dots outside back-quotes, strip back-quotes"""
+    """independent reading of an identifier path: split at dots outside back-quotes / double quotes, strip the quotes"""
     parts, cur, inq = [], '', False
     for c in text:
-        if c == '`':
-            inq = not inq
+        if c == '`' and inq != '"':
+            inq = False if inq else '`'
+        elif c == '"' and inq != '`':
+            inq = False if inq else '"'
         elif c == '.' and not inq:
             parts.append(cur)
             cur = ''
@@ -98,6 +100,7 @@ def ident_parts(text):
 
 
 ID_FORMS = ['abc', 'aBc', 'ABC', '`abc`', '`select`', '`a b`', '`a.b`', '1a', '`1a`', '`é`', '_x', 'a$b', '`group by`', '`A B`', '`a-b`', '`1`']
+DQ_FORMS = ['"abc"', '"a.b"', '"a b"', '"select"', '"A.b.C"']   # double-quoted parts (where a dialect reads them as names)
 
 
 class CHECK(Check):
@@ -140,6 +143,12 @@ class CHECK(Check):
                         continue
                     for pos in ('column', 'table') + (('alias',) if n == 1 else ()):
                         out.append((d, 'ident', None, '.'.join(tup), pos))
+            # double-quoted parts in every position of a path of 1-3 parts (the other parts plain / back-quoted with a dot)
+            for n in (1, 2, 3):
+                for tup in itertools.product(['abc', '`a.b`'] + DQ_FORMS, repeat=n):
+                    if any(x in DQ_FORMS for x in tup):
+                        for pos in ('column', 'table'):
+                            out.append((d, 'ident', None, '.'.join(tup), pos))
         # encode direction
         vals = []
         for n in range(0, L + 1):
@@ -159,7 +168,7 @@ class CHECK(Check):
             for tup in itertools.product(part_vals, repeat=n):
                 for d in gsx.DIALECTS:
                     out.append((d, 'enc_ident', None, list(tup), None))
-        for v in ['v', 'v.w', 'a b', 'A', '$x', 'a-b', 'select']:
+        for v in ['v', 'v.w', 'a b', 'A', '$x', 'a-b', 'select', 'abc\n', 'a\nb', 'a ', 'a\tb', 'a.b\n', 'a1', 'aé']:   # names the lexers can express (first character a letter, _ . or $)
             for sysv in (False, True):
                 for d in ('mindsdb', 'mysql'):
                     out.append((d, 'enc_var', None, v, sysv))
@@ -284,7 +293,7 @@ class CHECK(Check):
         except parsing.LexError:
             res.count('ident_not_lexable')
             return res
-        nparts = path.count('.') + 1 if '`' not in path else None
+        toks = ['ID' if t == 'DQUOTE_STRING' else t for t in toks]
         if not all(t in ('ID', 'DOT') for t in toks) or toks[0] != 'ID' or toks[-1] != 'ID' or toks.count('ID') != toks.count('DOT') + 1:
             res.count('not_a_plain_path')   # e.g. a keyword, or 1a lexed as number+id
             return res
